@@ -534,11 +534,74 @@ def job_view_boxes(jc):
 
 
 
+# ------------------------------------------------------------ _copy_svg on a real font that has GDEF but no GSUB/GPOS
+
+
+def _copy_svg_gdef(lo, hi, keep):
+    """target = the lookup zoo without the tables named in `drop`; donor = same glyphs in reversed order with one SVG
+    document for donor gids lo..hi.  -> (new order, coverages of the target not sorted by the new glyph ids)"""
+    from harness import C11, C11_zoo
+
+    target = C11_zoo.build_zoo()
+    for tag in ("GSUB", "GPOS", "GDEF"):
+        if tag not in keep and tag in target:
+            del target[tag]
+    names = list(C11_zoo.NAMES)
+    donor = StubFont([names[0]] + names[:0:-1])
+    donor["SVG "] = Tbl(docList=[("<svg/>", lo, hi)])
+    GT._copy_svg(target, donor)
+    order = target.getGlyphOrder()
+    pos = {n: i for i, n in enumerate(order)}
+    bad = []
+    for tag in keep:
+        if tag not in target:
+            continue
+        for node in C11.all_nodes(target[tag].table):
+            for a, c in C11.coverages_of(node):
+                if [pos[g] for g in c.glyphs] != sorted(pos[g] for g in c.glyphs):
+                    bad.append({"table": f"{tag}:{type(node).__name__}", "coverage": a, "glyphs": list(c.glyphs), "new glyph ids": [pos[g] for g in c.glyphs]})
+    return order, bad
+
+
+def replay_copy_svg_gdef(inp):
+    try:
+        order, bad = _copy_svg_gdef(int(inp["lo"]), int(inp["hi"]), tuple(inp["keep"]))
+    except Exception as e:
+        return {"raised": repr(e)}
+    return {"tables kept": inp["keep"], "new glyph order": order, "coverage tables not in glyph id order": bad[:3]} if bad else None
+
+
+def job_copy_svg_gdef(jc):
+    jc.encode(GT._copy_svg)
+    keep = jc.params["keep"]
+    inp = {"keep": list(keep), "lo": core.SymNum(z3.Int("lo")), "hi": core.SymNum(z3.Int("hi"))}
+
+    def body():
+        lo = core.integer("lo", 1, 5).concretize()
+        hi = core.integer("hi", 1, 8).concretize()
+        if hi < lo:
+            return None
+        return _copy_svg_gdef(lo, hi, keep)
+
+    for r in jc.explore(body, max_paths=100, catch=(AssertionError, ValueError, IndexError)):
+        if not jc.no_exception(r, inp, replay_copy_svg_gdef, "C12:copy_svg:tables:raises"):
+            continue
+        if r.value is None:
+            continue
+        jc.reach(r, "ok")
+        jc.prove(r, z3.BoolVal(not r.value[1]), "after _copy_svg every coverage table of the font (GDEF included, with or without GSUB/GPOS) lists glyphs in the new glyph id order", inp, replay_copy_svg_gdef, key="C12:copy_svg:tables")
+    jc.expect_reached("ok")
+
+
+
 def copy_svg_jobs(tier):
     perms = [tuple(range(len(NAMES))), (0, 6, 5, 4, 3, 2, 1), (0, 3, 1, 5, 2, 6, 4)]
     if tier != "quick":
         perms += [(0, 2, 1, 4, 3, 6, 5), (0, 4, 5, 6, 1, 2, 3)]
-    return [Job(f"copy_svg[target order {p}]", job_copy_svg, target_perm=p) for p in perms]
+    js = [Job(f"copy_svg[target order {p}]", job_copy_svg, target_perm=p) for p in perms]
+    for keep in (("GDEF",), ("GDEF", "GPOS"), ("GSUB", "GPOS", "GDEF")):
+        js.append(Job(f"copy_svg[real font, tables {'+'.join(keep)}]", job_copy_svg_gdef, keep=keep))
+    return js
 
 
 def jobs(tier):
